@@ -100,7 +100,7 @@ class SingleStatementDetector:  # thailint: ignore[srp.violation]
         """Parse content, returning None on syntax error."""
         try:
             return ast.parse(content)
-        except SyntaxError:
+        except (SyntaxError, RecursionError, MemoryError):
             return None
 
     @staticmethod
@@ -326,7 +326,7 @@ class SingleStatementDetector:  # thailint: ignore[srp.violation]
         try:
             tree = ast.parse(source_snippet)
             return len(tree.body) == 1
-        except SyntaxError:
+        except (SyntaxError, RecursionError, MemoryError):
             return False
 
     def check_ast_context(  # pylint: disable=too-many-arguments,too-many-positional-arguments
@@ -360,7 +360,7 @@ class SingleStatementDetector:  # thailint: ignore[srp.violation]
         try:
             tree = ast.parse(context)
             return predicate(tree, lookback_start)
-        except SyntaxError:
+        except (SyntaxError, RecursionError, MemoryError):
             pass
 
         return False
